@@ -1,5 +1,6 @@
 import Driver.Util
 import GrVerif.Model.Pass
+import GrVerif.Proofs.Fsm
 namespace Driver.Shape
 open GrVerif.Vm GrVerif.Seg GrVerif.Action GrVerif.Pass Driver
 
@@ -26,7 +27,7 @@ def allSome {α : Type} (l : List (Option α)) : Option (List α) :=
 
 /-- `ml,minpre,maxpre,ncols,ntrans,nstates,nsucc/cols/starts/rows/rulemaps/rules` -/
 def parsePass (s : String) : Option PassT :=
-  match s.splitOn "/" with
+  match (s.splitOn "/").take 6 with
   | [hdr, cols, starts, rows, maps, rules] =>
     match nats hdr ",", nats cols ",", nats starts ",",
           allSome ((if rows = "-" then [] else rows.splitOn ";").map fun r => nats r ","),
@@ -37,6 +38,20 @@ def parsePass (s : String) : Option PassT :=
              cols := cols.toArray, starts := starts.toArray, trans := (rows.map List.toArray).toArray, ruleMap := maps.toArray, rules := rules.toArray }
     | _, _, _, _, _, _ => none
   | _ => none
+
+/-- the seventh field of a pass: the rules' column patterns (`c.c.c;c.c`), used only to validate the tables -/
+def parsePats (s : String) : Option (Array (List Nat)) :=
+  match (s.splitOn "/")[6]? with
+  | some f => (allSome ((if f = "-" then [] else f.splitOn ";").map fun r => nats r ".")).map List.toArray
+  | none => none
+
+/-- does the pass's state machine encode its rule patterns (the hypothesis `TrieOK` of `fsm_matches_patterns`)? -/
+def trieBit (p : PassT) (pats : Option (Array (List Nat))) : String :=
+  match pats with
+  | none => "?"
+  | some pats =>
+    let lab := labelStates p
+    if p.minPre = p.maxPre ∧ p.starts = #[0] ∧ pats.size = p.rules.size ∧ trieCheck p pats (fun s => lab.getD s []) then "1" else "0"
 
 def field (ws : List String) (k : String) : Option String :=
   (ws.find? fun w => w.startsWith (k ++ "=")).map fun w => (w.drop (k.length + 1)).toString
@@ -66,13 +81,14 @@ def step (line : String) : String :=
                            cmap := fun ch => if 0x61 ≤ ch ∧ ch ≤ 0x69 then ch - 0x60 else 0 }
       match shape font text.toList 100000 with
       | .error w => "fault " ++ w
-      | .ok none => "noseg"
+      | .ok none => "trie=" ++ String.join ((ps.splitOn "|").zip passes |>.map fun (src, p) => trieBit p (parsePats src)) ++ " noseg"
       | .ok (some (seg, chars)) =>
         let l := streamOf seg
         let slots := l.map fun i =>
           let sl := seg.get i
           s!"s:{sl.gid},{sl.before},{sl.after},{sl.original},{posIn l sl.parent},{posIn l sl.child}"
-        String.intercalate " " (s!"n={seg.numGlyphs} walk={l.length}" :: slots)
+        let tb := String.join ((ps.splitOn "|").zip passes |>.map fun (src, p) => trieBit p (parsePats src))
+        String.intercalate " " (s!"trie={tb} n={seg.numGlyphs} walk={l.length}" :: slots)
     | _, _, _, _, _ => "bad-op"
   | _, _, _, _, _, _ => "bad-op"
 
